@@ -207,12 +207,21 @@ def t_cleanup_fatal():
             iff("x", "ge", 3, [op("errorf", text="small")])]
 
 
+def t_datamsg():
+    # failures whose message / panic value shows the drawn data: the same site all the same
+    return [draw(g("Int32"), "x", "x"), draw(g("SliceOfN", elem=g("Byte"), minLen=0, maxLen=6), "s", "s"),
+            iff("x", "ge", 70000, [op("panic", site=1, val="data", var="x")]),
+            iff("x", "le", -70000, [op("rterr", site=2, val="indexv", var="x")]),
+            iff("s", "lenge", 4, [op("fatalf", site=3, var="s")]),
+            iff("x", "mod2", 1, [op("errorf", text="odd", var="x")])]
+
+
 def t_filter_panics():
     return [draw(g("Int8"), "p"), draw(g("Filter", elem=IntRange(0, 1000), pred="boom"), "f"), draw(g("SliceOf", elem=g("Byte")), "tail")]
 
 
 TEMPLATES = {
-    "custom_fatal": t_custom_fatal, "filter_panics": t_filter_panics, "cleanup_fatal": t_cleanup_fatal,
+    "custom_fatal": t_custom_fatal, "filter_panics": t_filter_panics, "cleanup_fatal": t_cleanup_fatal, "datamsg": t_datamsg,
     "custom_hard": t_custom_hard,
     "makemap": t_makemap, "custom_empty": t_custom_empty, "sm2": t_sm2, "cleanup_skip_errorf": t_cleanup_skip_errorf, "regexp_retry": t_regexp_retry,
     "ctx": t_ctx,
@@ -591,10 +600,10 @@ def c05(tier, seed):
     out = []
     n = 12 if tier == "quick" else 300
     tmpl = ["multisite", "errorf_then_panic", "threshold", "distinct", "map", "filter", "sm", "string", "custom", "sampled", "nonfatal",
-            "makemap", "custom_empty", "regexp_retry", "sm2", "cleanup_skip_errorf", "custom_hard", "custom_fatal", "filter_panics", "cleanup_fatal"]
+            "makemap", "custom_empty", "regexp_retry", "sm2", "cleanup_skip_errorf", "custom_hard", "custom_fatal", "filter_panics", "cleanup_fatal", "datamsg"]
     for i in range(n):
         for tn in tmpl:
-            if tier == "quick" and i >= 4 and tn not in ("multisite", "errorf_then_panic", "distinct", "makemap", "custom_empty", "custom_hard", "cleanup_fatal"):
+            if tier == "quick" and i >= 4 and tn not in ("multisite", "errorf_then_panic", "distinct", "makemap", "custom_empty", "custom_hard", "cleanup_fatal", "datamsg"):
                 continue
             prop = {"body": TEMPLATES[tn]()}
             st = rng.choice(["0s", "full", "full", "cut"])
